@@ -39,7 +39,7 @@ def gen_ast(rnd, i, rich=True):
         if rnd.random() < 0.08:
             cons.append({"k": "null"})
         if rnd.random() < 0.2:
-            cons.append({"k": "default", "v": rnd.choice(["5", "-3", "'x'", "NULL", "1.5", "+2"])})
+            cons.append({"k": "default", "v": rnd.choice(["5", "-3", "'x'", "NULL", "1.5", "+2", "''", "''", "'it''s'", "x''"])})
         if rich and rnd.random() < 0.12 and (n.isalnum() or not n.isascii()) and n != "select":
             cons.append({"k": "check", "e": "%s > 0" % n})
         if rich and rnd.random() < 0.08:
@@ -95,6 +95,17 @@ def tla_ast(ast):
             return {"k": "collate", "c": c["c"]}
         if c["k"] == "default" and c["v"] == "NULL":
             return {"k": "defaultnull"}      # indistinguishable from "no default" in the parser's report (nil)
+        if c["k"] == "default":
+            # the value the literal denotes, in the parser's own rendering (Go type : value); "?" = not compared
+            v = c["v"]
+            import re as _re
+            if _re.fullmatch(r"[+-]?\d+", v):
+                dv = "int64:%d" % int(v)
+            elif len(v) >= 2 and v[0] == "'" and v[-1] == "'":
+                dv = "string:" + v[1:-1].replace("''", "'")
+            else:
+                dv = "?"
+            return {"k": "default", "dv": dv}
         return {"k": c["k"]}
     return {"name": ast["name"], "wr": ast["wr"],
             "cols": [{"name": c["name"], "isint": c["isint"], "cons": [cons(k) for k in c["cons"]]} for c in ast["cols"]],
